@@ -391,7 +391,29 @@ def roundtrip(spec: dict, mode: dict) -> tuple[str | None, str]:
         return f'parse raised {type(e).__name__}: {str(e)[:200]}', 'parse'
     d = diff(before, after, text=(mode['fmt'] == 'kv2'),
              uuid_all=not (mode['fmt'] == 'kv2' and mode['cull_uuid'] and not mode['flat']))
-    return (None, 'ok') if d is None else (d, 'compare')
+    if d is not None:
+        return d, 'compare'
+    # state carried between calls: exporting must leave the graph as it was and give the same bytes when repeated;
+    # parsing the same bytes again must give the same graph (nothing kept from the first call)
+    try:
+        with time_limit():
+            if canon(elems[0]) != before:
+                return 'the export changed the graph it was given', 'repeat'
+            buf2 = io.BytesIO()
+            if mode['fmt'] == 'binary':
+                elems[0].export_binary(buf2, version=mode['version'], unicode=mode['unicode'])
+            else:
+                elems[0].export_kv2(buf2, flat=mode['flat'], cull_uuid=mode['cull_uuid'], unicode=mode['unicode'])
+            if buf2.getvalue() != data:
+                return 'a second export of the same graph gives other bytes', 'repeat'
+            got2, _, _ = dmx.Element.parse(io.BytesIO(data), unicode=(mode['unicode'] == 'silent'))
+            d2 = diff(before, canon(got2), text=(mode['fmt'] == 'kv2'),
+                      uuid_all=not (mode['fmt'] == 'kv2' and mode['cull_uuid'] and not mode['flat']))
+            if d2 is not None:
+                return f'a second parse of the same bytes differs: {d2}', 'repeat'
+    except Exception as e:
+        return f'repeating export / parse raised {type(e).__name__}: {str(e)[:200]}', 'repeat'
+    return None, 'ok'
 
 
 def export_bytes(spec: dict, version: int, unicode: str) -> bytes:
